@@ -66,7 +66,7 @@ func famClosures(r *rng) []string {
 	var res []string
 	a, b, c := 1+r.intn(9), 10+r.intn(9), 20+r.intn(9)
 	switch r.intn(9) {
-	case 0: // instances of one text calling each other (repo fix 15db210)
+	case 0: // instances of one text calling each other (repo fix 0558004)
 		body := pickS(r,
 			"if f == nil {n} else {n + f(nil)}",
 			"if f == nil {return n}; [n, f(nil)]",
@@ -144,7 +144,7 @@ func famClosures(r *rng) []string {
 			fmt.Sprintf("println(ops.f(%d), ops.sq(%d), ops[\"id\"](%d), [fact, ev][0](%d))", 1+r.intn(12), a, b, 1+r.intn(6)),
 			fmt.Sprintf("fib = func(n){ if n < 2 {return n}; fib(n - 1) + fib(n - 2) }; println(fib(%d), fib(%d))", 5+r.intn(10), 3+r.intn(6)),
 			fmt.Sprintf("ack = func(m, n){ if m == 0 {return n + 1}; if n == 0 {return ack(m - 1, 1)}; ack(m - 1, ack(m, n - 1)) }; println(ack(2, %d))", r.intn(4)))
-	case 7: // closures of one text that differ only in a captured FUNCTION, called with equal arguments (repo fix 066677f:
+	case 7: // closures of one text that differ only in a captured FUNCTION, called with equal arguments (repo fix 103fa2c:
 		// the second call was answered from the cache with the first closure's result)
 		mk := pickS(r, "app = func(g){ func(x){ g(x) } }", "app = g => x => g(x)", "func app(g){ h = g; func(x){ [h(x), g(x)] } }",
 			"app = func(k){ h = [x => x + 1, x => x * 2, x => 0 - x][k]; func(x){ h(x) } }")
